@@ -127,7 +127,7 @@ type c14case struct {
 	imm   string
 }
 
-var c14Forms = []string{"direct", "derived-table", "cte", "row-subquery", "immediate", "nested-from", "join-side"}
+var c14Forms = []string{"direct", "derived-table", "cte", "row-subquery", "immediate", "nested-from", "join-side", "awaited-by-outer-query"}
 
 type c14 struct {
 	tier  string
@@ -182,7 +182,7 @@ func (p *c14) Init(tier string) {
 			lists[j], lists[j-1] = lists[j-1], lists[j]
 		}
 	}
-	for _, form := range []int{0, 1, 2, 3, 5, 6} {
+	for _, form := range []int{0, 1, 2, 3, 5, 6, 7} {
 		for _, l := range lists {
 			for rows := 0; rows <= maxRows; rows++ {
 				if form != 0 && (rows == 0 || len(l) > 2) {
@@ -201,6 +201,18 @@ func (p *c14) Init(tier string) {
 				}
 				if calls*rows > 4 {
 					continue
+				}
+				if form == 7 {
+					// the README's use of AWAIT: the outer query awaits the columns of a derived table
+					cols := 0
+					for _, k := range l {
+						if c14Items[k].col != "" {
+							cols++
+						}
+					}
+					if cols == 0 {
+						continue
+					}
 				}
 				p.cases = append(p.cases, c14case{items: l, form: form, rows: rows})
 			}
@@ -245,6 +257,14 @@ func (p *c14) build(c *c14case) (mk func() map[string]any, sql string, argCol st
 		sql = "SELECT " + list + " FROM m"
 	case 6:
 		sql = "SELECT * FROM (SELECT " + list + ", id AS jid FROM t) x JOIN u y ON x.jid = y.rid"
+	case 7:
+		var outer []string
+		for _, k := range c.items {
+			if col := c14Items[k].col; col != "" {
+				outer = append(outer, fmt.Sprintf("AWAIT(d.%s) AS %s", col, col))
+			}
+		}
+		sql = "SELECT " + strings.Join(outer, ", ") + " FROM (SELECT " + list + " FROM t) AS d"
 	}
 	rows := c.rows
 	mk = func() map[string]any {
